@@ -229,3 +229,31 @@ SUBS = [
 ]
 REQUIRED_CLASSES = ["relations:two_distinct_flags", "locality:perturbation_changes_flag"] + \
     [f"relations:offset:{t}" for t in OFFSET] + [f"relations:tshift:{t}" for t in TSHIFT] + [f"locality:local:{t}" for t in LOCAL]
+
+
+# ---- deterministic sweep: sub-second sampling and fractional time shifts -----------------------------------
+def sub_chunks(tier):
+    return [{"step8": s} for s in (12, 20, 6, 9)]  # sampling steps of 1.5, 2.5, 0.75, 1.125 s (in 1/8 s)
+
+
+def sub_cases(chunk):
+    step = chunk["step8"] / 8
+    n = 8
+    for slope in (1.0, 3.0, 0.5):
+        x = [i * slope for i in range(n)]
+        for phase in (0.0, 0.125, 0.5, 0.875):
+            t = [1577836800 + phase + i * step for i in range(n)]
+            for shift in (0.5, 0.125, 0.25, 0.875, 1.5):
+                # thresholds between the rates that whole-second truncation of the *instants* would produce
+                for thr in (slope / (step + 0.5), slope / step * 0.99, slope / max(step - 0.5, 0.25) * 0.99, slope / (int(step) or 1) * 0.99):
+                    yield {"rel": "tshift", "test": "roc", "case": {"x": x, "t": t, "thr": thr, "tc": "dt64"}, "k": shift, "subsecond": True}
+                yield {"rel": "tshift", "test": "attenuated",
+                       "case": {"x": [v % 3 for v in x], "t": t, "check": "range", "period": int(2 * step) + 1, "min_obs": 2, "min_period": None,
+                                "suspect": 1.5, "fail": 0.5, "tc": "dt64"}, "k": shift, "subsecond": True}
+
+
+from ..core import Enum  # noqa: E402
+ENUMS = [Enum("subsecond_shift_grid", sub_chunks, sub_cases, check_relation,
+              describe="rate_of_change / windowed attenuated on sampling steps of 0.75, 1.125, 1.5 and 2.5 s x 4 sub-second phases x "
+                       "5 fractional shifts x thresholds between the rates that a whole-second truncation of the instants would produce",
+              tiers=("quick", "thorough"))]
